@@ -83,6 +83,28 @@ CLAIMED = {
              "in the exhaustive stream.",
         technique="Coq proof (loop invariant by induction) + exhaustive bounded correspondence against the real Runner",
         design="7/C05"),
+    "C11": dict(
+        text="Coq theorems: frames with equal step labels carry equal state, time and dt for any two save intervals (the "
+             "trajectory does not mention how it is observed); with an autonomous update n+m steps equal n steps followed by m "
+             "steps from the reached state. Oracle on the implementation: real runs differing only in save_every / output "
+             "destination / progress interval / probes compared frame by frame bit-for-bit (sha256); a 12-step fixed-step run "
+             "split at every point and resumed via seed_solution reproduces the uninterrupted frames bit for bit.",
+        note="Coq kernel, no axioms; frame-label semantics tied to the real Runner in C05; bit-identity is measured, aliasing "
+             "bugs show up as differing hashes.",
+        technique="Coq proof over the Runner model + bit-for-bit differential runs",
+        design="7/C11"),
+    "C15": dict(
+        text="Coq theorems: an exception in update call p leaves exactly the frames recorded before it (labels 0,k,2k,..<=p); a "
+             "cancellation leaves exactly the frames of a run ending at step p; the output name chosen by the exclusive-create "
+             "loop is fresh, nothing pre-existing is touched, only the chosen pair is added and close() removes the .tmp file "
+             "(with a refutation for the stray file the code left before the fix). Correspondence + oracle: 144 real runs with "
+             "an injected RuntimeError/KeyboardInterrupt at every update call, every frame-writer call and inside the writer, "
+             "both stages, explicit/temporary output, pre-existing files: exception/return, listings, byte-identity of existing "
+             "files, open HDF5 handles, readability, frame labels and contents vs a fault-free reference. PARTIAL: faults are "
+             "injected at Python call boundaries; OS-level failures are not exhibited.",
+        note="Coq kernel, no axioms; h5py/OS are oracles; labelled partial for runtime behaviour below the Python level.",
+        technique="Coq proof (fault lemma by induction; file-name loop) + exhaustive fault injection on the real code",
+        design="7/C15"),
 }
 
 PENDING_REASON = "check not built yet in this session (planned, see DESIGN.md section 7); not claimed until it runs"
